@@ -21,6 +21,7 @@ Patterns ==
     chain    |-> [pars |-> <<<<"a", "b">>, <<"b", "c">>, <<"c", "d">>>>, kind |-> <<"chi2", "chi2", "chi2">>],
     nonadj   |-> [pars |-> <<<<"a", "b">>, <<"c", "d">>, <<"a", "d">>>>, kind |-> <<"chi2", "chi2", "chi2">>],
     mixed    |-> [pars |-> <<<<"a", "b">>, <<"m", "s">>, <<"b", "c">>>>, kind |-> <<"chi2", "nll", "chi2">>],
+    reorder  |-> [pars |-> <<<<"a", "b">>, <<"c", "a">>>>, kind |-> <<"chi2", "chi2">>],     \* a member lists a shared name in another position
     single   |-> [pars |-> <<<<"a", "b">>>>, kind |-> <<"chi2">>] ]
 Pat == Patterns[Pattern]
 Members == 1..Len(Pat.pars)
